@@ -12,6 +12,49 @@ import (
 	"verifsim/worlds/core"
 )
 
+// Window enumerates consecutive byte offsets of one direction with one mask.
+type Window struct {
+	Dir, Start, Len, Trials int
+	Mask                    byte
+}
+
+// NewWindow draws a window in a third of the cases (nil otherwise).
+func NewWindow(t *rt.Tape, lenGE, lenEG int) *Window {
+	if t.Choose(rt.SFault, 3) != 0 {
+		return nil
+	}
+	w := &Window{Dir: t.Choose(rt.SFault, 2)}
+	w.Len = lenGE
+	if w.Dir == 1 {
+		w.Len = lenEG
+	}
+	if w.Len == 0 {
+		return nil
+	}
+	switch t.Choose(rt.SFault, 3) {
+	case 0:
+		w.Start = 0
+	case 1:
+		w.Start = max(0, w.Len-48)
+	default:
+		w.Start = t.Choose(rt.SFault, w.Len)
+	}
+	w.Mask = []byte{0x01, 0x80, 0xff, 0x10}[t.Choose(rt.SFault, 4)]
+	w.Trials = 16 + t.Choose(rt.SFault, 33)
+	return w
+}
+
+// Fault returns the k-th fault of the window.
+func (w *Window) Fault(k int) (ge, eg []simnet.Fault, desc []string) {
+	off := (w.Start + k) % w.Len
+	f := simnet.Fault{Kind: simnet.FaultFlip, Off: uint64(off), Mask: w.Mask}
+	desc = []string{fmt.Sprintf("%s off=%d/%d xor %#02x (window)", []string{"G->E", "E->G"}[w.Dir], off, w.Len, w.Mask)}
+	if w.Dir == 0 {
+		return []simnet.Fault{f}, nil, desc
+	}
+	return nil, []simnet.Fault{f}, desc
+}
+
 // C16 is the whole-circuit part of the C16 world.
 type C16 struct{ Tier string }
 
@@ -105,8 +148,18 @@ func (w *C16) Run(t *rt.Tape, trace bool, seed uint64) *core.Result {
 	lenGE, lenEG := len(ref.GE), len(ref.EG)
 
 	trials := 4 + t.Choose(rt.SGen, 8)
+	// window mode: consecutive byte offsets of one direction, one mask - dense
+	// local enumeration instead of scattered samples
+	win := NewWindow(t, lenGE, lenEG)
+	if win != nil {
+		trials = win.Trials
+		res.Reach["window-enumerations"]++
+	}
 	for k := 0; k < trials; k++ {
 		ge, eg, desc := DrawFaults(t, lenGE, lenEG)
+		if win != nil {
+			ge, eg, desc = win.Fault(k)
+		}
 		simrand.Reseed(seed) // identical randomness: identical transcript up to the fault
 		simnet.Reset()
 		p := pipe
